@@ -145,8 +145,15 @@ func cmdCheck(args []string) int {
 	// obligations no solver decided within the quick budget get one retry with a larger one before
 	// anything is reported (a time-out is not a counterexample)
 	var retry []*Obligation
+	knownEarly, _ := loadKnownFindings()
 	for _, o := range all {
-		if o.Script != "" && !o.Cover && !o.Must && o.Status != "unsat" && o.Status != "sat" {
+		isKF := false
+		for _, kf := range knownEarly {
+			if kf.Obligation == o.Name {
+				isKF = true
+			}
+		}
+		if o.Script != "" && !o.Cover && !o.Must && !isKF && o.Status != "unsat" && o.Status != "sat" {
 			retry = append(retry, o)
 		}
 	}
